@@ -351,8 +351,24 @@ def bs4_tree(content):
 
 # ---- known findings, recognised by the FAILURE ----------------------------------------------------------------------
 def _is_ws_text(it):
-    # Python white space: U+2028, U+00A0 ... after a wrap are dropped with the indentation like blanks
-    return it[0] == "t" and all(chr(c).isspace() for c, _ in it[1])
+    # WS_UNICODE: Python white space (U+2028, U+00A0 ... after a wrap are dropped with the indentation like blanks);
+    # otherwise ASCII blanks only (a no-break space in front of the wrap stays).  The classification tries both.
+    if WS_UNICODE[0]:
+        return it[0] == "t" and all(chr(c).isspace() for c, _ in it[1])
+    return it[0] == "t" and all(chr(c) in " \t\r\n\x0c" for c, _ in it[1])
+
+
+WS_UNICODE = [False]
+
+
+def _glue_alts(items, sami):
+    out = []
+    for mode in (False, True):
+        WS_UNICODE[0] = mode
+        out += [a for a in (glue_alt(items, sami), glue_alt(items, not sami)) if a is not None]
+        out += glue_subsets(items)
+    WS_UNICODE[0] = False
+    return out
 
 
 def glue_alt(items, sami=False):
@@ -482,8 +498,7 @@ def classify_known(viols):
         items = [tuple(x) for x in v["input"]]
         if v["fmt"] in ("DFXP", "SAMI"):
             kind = "words-glued-at-wrap-next-to-inline-element"
-            alts = [a for a in (glue_alt(items, v["fmt"] == "SAMI"), glue_alt(items, v["fmt"] != "SAMI")) if a is not None]
-            alts += glue_subsets(items)
+            alts = _glue_alts(items, v["fmt"] == "SAMI")
             for alt in alts:
                 reqs.append((408, [wire_items(alt), v["observed"]]))
                 slots.append((v, kind))
